@@ -32,10 +32,6 @@ type DecoratorResolver struct {
 
 func (r *DecoratorResolver) ResolveIdent(file *ast.File, parent ast.Node, parentField string, id *ast.Ident) (string, error) {
 
-	if r.RestorerResolver == nil {
-		r.RestorerResolver = guess.New()
-	}
-
 	r.verifStep(file, "start")
 	imports, err := r.imports(file)
 	if err != nil {
@@ -70,6 +66,12 @@ func (r *DecoratorResolver) imports(file *ast.File) (map[string]string, error) {
 	defer r.filesM.Unlock()
 	r.verifStep(file, "lock")
 	defer r.verifStep(file, "unlock")
+
+	if r.RestorerResolver == nil {
+		// Default resolver. This is done while holding the lock because a DecoratorResolver
+		// may be shared by several goroutines.
+		r.RestorerResolver = guess.New()
+	}
 
 	if r.files == nil {
 		r.files = map[*ast.File]map[string]string{}
